@@ -9,7 +9,7 @@ META = {
     "C17": {
         "engine": "vkit (E2)",
         "technique": "exhaustive per-iteration and per-leaf alteration enumeration of the decomposed proof tree; exhaustive search over Z_N for a best-effort cheating prover on toy bad moduli; a few full verifications at the top level",
-        "text": "Gennaro-style components: honest accept; for EVERY iteration index a proof valid everywhere but there is rejected (8 + 80 + 8 + 2x250 cases); wrong challenge / index; seven bad toy moduli (p^2 q, pqr, pq^3, gcd(N,phi)>1, prime, p^2) x challenges x {square-free, prime-power, disjoint}: the cheating prover's per-iteration answers come from exhaustive search over Z_N with an independently written relation and the verifier's verdict must equal 'every iteration answerable'; the almost-safe-prime relation is compared with an independent re-implementation. Zero-knowledge building blocks (pedersen, addition, multiplication, exp with both OR branches, prime, is-square) on a 40-bit group: every exported big-integer leaf x {+1, -1, =0, =nil, =next leaf} must fail the structure check or change the reconstructed commitments. Top level: toy key, honest, JSON round trip, modulus N+8, altered base list (thorough: reordered/shortened list, foreign proof, every top-level field transplanted).",
+        "text": "Gennaro-style components: honest accept; for EVERY iteration index a proof valid everywhere but there is rejected (8 + 80 + 8 + 2x250 cases); wrong challenge / index; seven bad toy moduli (p^2 q, pqr, pq^3, gcd(N,phi)>1, prime, p^2) x challenges x {square-free, prime-power, disjoint}: the cheating prover's per-iteration answers come from exhaustive search over Z_N with an independently written relation and the verifier's verdict must equal 'every iteration answerable'; the almost-safe-prime relation is compared with an independent re-implementation. Zero-knowledge building blocks (pedersen, addition, multiplication, exp with both OR branches, prime, is-square) on a 40-bit group: every exported big-integer leaf x {+1, -1, =0, =nil, =next leaf} must fail the structure check or change the reconstructed commitments. Top level: toy key, honest, JSON round trip, modulus N+8, altered base list (thorough: reordered/shortened list, foreign proof, every top-level field transplanted). Structure reuse at top level (a second honest proof with its own group prime on a structure that built / verified another). Fiat-Shamir forgery handles on every component: every assignment of {keep, 0, P, 2P} to the field groups of the proof and of the proofs it takes its bases from, verified under three challenges (challenge-independent accepted transcript without zero entry = forgeable). Whole-proof forgery: N = (2r^3+1)*q with honest Gennaro subproofs (square roots modulo r^3 q'), an unrelated prime committed as p' and the commitment to p replaced by 0, P, 2P, 1, P-1; control run with two safe primes must be accepted, every forgery rejected. Leaves inside maps (RangeProof.Results) are part of the leaf menu.",
         "note": "Statistical soundness itself (2^-80) is out of reach; toy sizes stand for real ones at component level; the top level uses 48-bit primes (a full verification costs seconds).",
     },
     "C18": {
@@ -21,31 +21,31 @@ META = {
     "C08": {
         "engine": "vkit (E2)",
         "technique": "exhaustive structural mutation of every node of seed proof-list JSON documents (fault enumeration on the decoder/verifier boundary)",
-        "text": "Eight seed documents (ProofD plain / non-revocation / range proofs with 3 and 4 squares on one and two attributes, ProofU plain / random-blind, mixed lists) x every JSON node x the menu (delete, null, empty string, AQ==, 0, {}, [], negative, duplicate key, re-keying of integer keys to -1 / 0 / len(R) / 2^31 / overflow / non-numeric / colliding, sibling swaps, array truncation at every length, extension, swaps, unknown keys, moving and copying optional sub-proofs between proofs); thorough adds all pairs of structural mutations. Each decodable mutant is verified through ProofList.Verify (three call shapes), ProofD.Verify and ProofU.Verify under recover: no panic, and acceptance only if the decoded list equals the seed by value.",
+        "text": "Eight seed documents (ProofD plain / non-revocation / range proofs with 3 and 4 squares on one and two attributes, ProofU plain / random-blind, mixed lists) x every JSON node x the menu (delete, null, empty string, AQ==, 0, {}, [], negative, duplicate key, re-keying of integer keys to -1 / 0 / len(R) / 2^31 / overflow / non-numeric / colliding, sibling swaps, array truncation at every length, extension, swaps, unknown keys, moving and copying optional sub-proofs between proofs); thorough adds all pairs of structural mutations. Each decodable mutant is verified through ProofList.Verify (three call shapes), ProofD.Verify and ProofU.Verify under recover: no panic, and acceptance only if the decoded list equals the seed by value. Every object entry is re-keyed (not only integer-like keys); keys without revocation part; secret-0 seed documents; a second call on the same decoded objects.",
         "note": "Byte-level coverage-guided fuzzing is sampling and is not used. Public keys are well-formed (as the property assumes).",
     },
     "C14": {
         "engine": "vkit (E2)",
         "technique": "exhaustive enumeration of builder lists x key tuples x participating subsets for the honest exchange; exhaustive alteration of the second message relative to the first",
-        "text": "Honest: every list of 1..3 (thorough 4) disclosure/issuance builders plus lists with non-revocation, range and random-blind members, every key tuple over two 1024-bit and one 2048-bit key (both orders of mixed sizes), every non-empty participating subset, both session kinds: same challenge on both sides, merged list verifies with labels for secret = user + server share. Deviations: every leaf of every UserChallengeInput (+1, =0, nil, swapped), key id toggled / unknown / swapped, other commitments altered / dropped / extended, elements reordered / dropped / duplicated / added, every byte and length of the committed hash: error and no response, never a panic.",
+        "text": "Honest: every list of 1..3 (thorough 4) disclosure/issuance builders plus lists with non-revocation, range and random-blind members, every key tuple over two 1024-bit and one 2048-bit key (both orders of mixed sizes), every non-empty participating subset, both session kinds: same challenge on both sides, merged list verifies with labels for secret = user + server share. Deviations: every leaf of every UserChallengeInput (+1, =0, nil, swapped), key id toggled / unknown / swapped, other commitments altered / dropped / extended, elements reordered / dropped / duplicated / added, every byte and length of the committed hash: error and no response, never a panic. All fixture keys carry one issuer name and differ in their counter, so that anything keyed by issuer name alone confuses them.",
         "note": "Toy parameter sets are not usable here (NewKeyshareCommitments assumes 1024-bit or >=2048-bit parameter sets); 4096-bit keys not covered.",
     },
     "C06": {
         "engine": "vkit (E2)",
         "technique": "exhaustive enumeration of issuance configurations (every blind subset) for honest runs; exhaustive single-leaf alteration / cross-run substitution of both protocol messages",
-        "text": "Honest part: attribute counts up to the number of bases, every subset of random-blind indices, keyshare on/off, witness on/off, toy and 1024-bit keys through the real NewCredentialBuilder / CommitToSecretAndProve / ProofList.Verify / IssueSignature / ConstructCredential: credential produced, signature verifies over exactly (secret, attributes), blind attribute = sum of shares, credential can be shown. Deviation part: every leaf of IssueCommitmentMessage and IssueSignatureMessage with {+1, =0, parallel-run value, other-key value, deleted}, nonce/context altered or replayed: no credential may result and no party may panic.",
+        "text": "Honest part: attribute counts up to the number of bases, every subset of random-blind indices, keyshare on/off, witness on/off, toy and 1024-bit keys through the real NewCredentialBuilder / CommitToSecretAndProve / ProofList.Verify / IssueSignature / ConstructCredential: credential produced, signature verifies over exactly (secret, attributes), blind attribute = sum of shares, credential can be shown. Deviation part: every leaf of IssueCommitmentMessage and IssueSignatureMessage with {+1, =0, parallel-run value, other-key value, deleted}, nonce/context altered or replayed: no credential may result and no party may panic. Cooperating pairs of alterations across the two messages (U*X with KeyshareP=X) with the oracle that the credential carries no foreign keyshare contribution.",
         "note": "With a keyshare contribution the issuer-side commitment proof check is C14's. 2048-bit keys not used here (cost of prime search per issuance).",
     },
     "C13": {
         "engine": "vkit (E2) + venv (E3)",
         "technique": "exhaustive enumeration of (splitter, sign, factor, difference) statements around the boundary and at 2^k differences, every three-square table entry, combinations; environment-answer deviations",
-        "text": "For differences -3..40 (thorough 300) and 2^k, 2^k+-1 up to 2^255, both signs, factors 1..8 with four squares; factor 1 with GenerateSquaresTable(16|64) and every table entry; 2-3 statements on one and two attributes; each random draw of an honest range proof forced to min/max/short: true statement => proof is created, verifies and Proves(statement); false => refused.",
+        "text": "For differences -3..40 (thorough 300) and 2^k, 2^k+-1 up to 2^255, both signs, factors 1..8 with four squares; factor 1 with GenerateSquaresTable(16|64) and every table entry; 2-3 statements on one and two attributes; each random draw of an honest range proof forced to min/max/short: true statement => proof is created, verifies and Proves(statement); false => refused. Query sequences: three proofs from one reused Statement object whose bound the caller moves in place; earlier proofs must keep verifying and reporting their bound and the library must not change the caller's statement.",
         "note": "One known finding (K01: three-square <= at equality). Key size toy only (completeness of the range part does not depend on the modulus size); 'random differences' of the quantifier replaced by boundary families.",
     },
     "C12": {
         "engine": "vkit (E2), model bound to the real proof structure",
         "technique": "exhaustive enumeration of proof descriptors x queried statements x attribute values on an integer box against integer semantics; exhaustive alteration/transplant enumeration of real range proofs with a semantic oracle",
-        "text": "Pure part: for every descriptor of a finite box (signs, factors incl. 2^62..2^64-1, bounds incl. the size limits, 3/4 squares, l_d) accepted by ExtractStructure, the relation verification actually checks is read from the real structure's exponents; for every m in [0,12] satisfying it, ProvenStatement and every ProvesStatement==true must hold over the integers. Crypto part: honest proofs with 3- and 4-square statements, false statements at the boundary, every single-field alteration, every transplant (other hidden index, disclosed index below/above the largest hidden one, unused base, len(R), 1000, -1, other credential; moved, copied, bogus added): accepted => every carried range proof is on a hidden existing index and reports a statement true of the signed value.",
+        "text": "Pure part: for every descriptor of a finite box (signs, factors incl. 2^62..2^64-1, bounds incl. the size limits, 3/4 squares, l_d) accepted by ExtractStructure, the relation verification actually checks is read from the real structure's exponents; for every m in [0,12] satisfying it, ProvenStatement and every ProvesStatement==true must hold over the integers. Crypto part: honest proofs with 3- and 4-square statements, false statements at the boundary, every single-field alteration, every transplant (other hidden index, disclosed index below/above the largest hidden one, unused base, len(R), 1000, -1, other credential; moved, copied, bogus added): accepted => every carried range proof is on a hidden existing index and reports a statement true of the signed value. Forgeries: range proofs with degenerate commitments (all C_i in {0,1,N-1,N}) for false statements with an adaptively computed challenge; consistent lies (a well-formed range proof about another value carrying its own response, with the attribute's or a fresh randomiser); three verification routes (wire copy, wire copy in a list, Go objects handed over directly); queried factors include the values whose fourfold wraps around to the proof's factor.",
         "note": "Soundness of the sum-of-squares argument itself rests on strong RSA (not decidable here). Attribute box [0,12]; crypto layer on one credential shape per key.",
     },
     "C07": {
@@ -57,13 +57,13 @@ META = {
     "C11": {
         "engine": "vkit (E4 + E2) + venv (E3)",
         "technique": "explicit-state search over credential/issuer operation histories against an accumulator-history model; exhaustive alteration/transplant enumeration of the non-revocation part; environment-answer deviations of every random draw",
-        "text": "Every sequence of <=4 (thorough 6) operations from {prepare cache, revoke other, revoke self, update witness, refresh time, prove+verify} is replayed on a fresh issuer world and credential and compared with the model: honest proofs from a valid witness verify (16 verifications each) and report exactly the index, time and Nu of the accumulator they were made against, also after a prepared commitment was refreshed. Every single-leaf alteration and transplant of the non-revocation part and proofs from doctored witnesses must be rejected. Every random draw of an honest proof is forced to min/max/short.",
+        "text": "Every sequence of <=4 (thorough 6) operations from {prepare cache, revoke other, revoke self, update witness, refresh time, prove+verify} is replayed on a fresh issuer world and credential and compared with the model: honest proofs from a valid witness verify (16 verifications each) and report exactly the index, time and Nu of the accumulator they were made against, also after a prepared commitment was refreshed. Every single-leaf alteration and transplant of the non-revocation part and proofs from doctored witnesses must be rejected. Every random draw of an honest proof is forced to min/max/short. Adaptive forgeries: a holder without a witness attaches a non-revocation part with degenerate commitments (0, 1, N-1, N) and computes the challenge over what the verifier reconstructs; oracle: not accepted.",
         "note": "Map-iteration-order dependent verdicts are sampled 16x per proof (the only residual probability in the framework). 2048-bit keys only in the environment part (thorough).",
     },
     "C10": {
         "engine": "vkit (E2)",
         "technique": "exhaustive single (thorough: pairwise) corruption enumeration of update messages x transport x operation, judged by an independent chain/signature validator",
-        "text": "Base updates with 0..9 events of an 8-revocation history are corrupted in every way of the menu (every event value/index, swaps, delete/duplicate/insert, every byte flip, every truncation length, extension, algorithm code and shorter well-formed digest of every parent hash, every byte of the signed blob, key counter, accumulator substituted by every other validly signed one or another key's), in memory and over JSON/CBOR, and fed to Update.Verify, Witness.Update, Update.Prepend (fresh and deserialised lists) and EventList.Verify; plus every ordered pair of EventList.Verify calls on one list object against all accumulators, and Hash.Equal over all prefixes/extensions/byte changes.",
+        "text": "Base updates with 0..9 events of an 8-revocation history are corrupted in every way of the menu (every event value/index, swaps, delete/duplicate/insert, every byte flip, every truncation length, extension, algorithm code and shorter well-formed digest of every parent hash, every byte of the signed blob, key counter, accumulator substituted by every other validly signed one or another key's), in memory and over JSON/CBOR, and fed to Update.Verify, Witness.Update, Update.Prepend (fresh and deserialised lists) and EventList.Verify; plus every ordered pair of EventList.Verify calls on one list object against all accumulators, and Hash.Equal over all prefixes/extensions/byte changes. Prepend routes (transported windows flattened with gaps, lists altered after verification), memoised verdicts, the same received object used twice.",
         "note": "Trusted: crypto/ecdsa, SHA-256, cbor decoding of the signed tuple in the validator. Triple corruptions are not explored.",
     },
     "C09": {
@@ -81,13 +81,13 @@ META = {
     "C20": {
         "engine": "vsched (E1) + vinstr, separate -race pass",
         "technique": "stateless preemption-bounded schedule exploration of the real code (credential cache, CPRNG reservation) + free-running race-detector pass over the same bodies",
-        "text": "One credential shared by 2-3 threads (prove with non-revocation, prepare cache, sequences of both; cold and warm cache) and the AES-CTR generator (2-3 threads, 1-2 reads of 1..200 bytes) are explored for every interleaving of their instrumented points (selects, lock, lazy-init field accesses, atomic reservation) up to 2 (thorough 3) preemptions; every proof must verify, no C_r/C_u/A or implied randomiser repeats, keystream intervals are disjoint, gap-free and respect real-time order. The race detector runs the same bodies free (2..64 goroutines).",
+        "text": "One credential shared by 2-3 threads (prove with non-revocation, prepare cache, sequences of both; cold and warm cache) and the AES-CTR generator (2-3 threads, 1-2 reads of 1..200 bytes) are explored for every interleaving of their instrumented points (selects, lock, lazy-init field accesses, atomic reservation) up to 2 (thorough 3) preemptions; every proof must verify, no C_r/C_u/A or implied randomiser repeats, keystream intervals are disjoint, gap-free and respect real-time order. The race detector runs the same bodies free (2..64 goroutines). The cached-commitment harnesses also start from a stale warm cache (accumulator moved on, witness updated after the cache was filled), explored and in the race pass; oracle extended by 'the proof is against the witness's accumulator'. The exp proof's worker pool (atomic work counter + WaitGroup, 3 workers by CPU affinity) is explored exhaustively to the preemption bound for both the commitment and the reconstruction phase; CL signature bodies, key-proof construction and key generation run in the free-running race pass.",
         "note": "The -race pass is a detector over observed executions, not exhaustive. Key generation's concurrency is explored under C16 (shared harness). keyproof's worker pool is covered by the race pass only.",
     },
     "C04": {
         "engine": "vkit (E2)",
         "technique": "exhaustive enumeration of all 2^k disclosure subsets x value rotations x session kinds, with exact key-set, value and leaf-scan oracles",
-        "text": "For k=1..4 (thorough 6) attributes, six rotations of the boundary value alphabet over positions, every subset, both session kinds, plain and non-revocation credentials on toy/1024/2048-bit keys, through both proving paths: the proof must verify, report exactly the chosen indices with true values, answer every other index, give an exact timestamp contribution, and contain no hidden value or its hash exponent as JSON leaf or substring.",
+        "text": "For k=1..4 (thorough 6) attributes, six rotations of the boundary value alphabet over positions, every subset, both session kinds, plain and non-revocation credentials on toy/1024/2048-bit keys, through both proving paths: the proof must verify, report exactly the chosen indices with true values, answer every other index, give an exact timestamp contribution, and contain no hidden value or its hash exponent as JSON leaf or substring. Timestamp contributions are read between challenge and proof; the credential is compared before/after a session and used for a second session.",
         "note": "Trusted: harness trapdoor signer. Statistical hiding of responses is not decidable here; keyshare / random-blind variants are exercised by C14 / C06.",
     },
     "C05": {
@@ -99,31 +99,31 @@ META = {
     "C02": {
         "engine": "vkit (E2)",
         "technique": "exhaustive neighbour enumeration around honest (session, proof list) pairs: accepted iff unchanged",
-        "text": "For every composition of 1..4 builders of all five kinds over one or two keys and both session kinds, the honest list is verified against every neighbour session tuple (bit flips of context/nonce, +-1, 0, negation, swaps, flag, key permutations/substitutions/drops) and every list transformation (permutation, sub-list, duplication, splice with another session's proofs, empty list); single proofs also through ProofD.Verify/ProofU.Verify.",
+        "text": "For every composition of 1..4 builders of all five kinds over one or two keys and both session kinds, the honest list is verified against every neighbour session tuple (bit flips of context/nonce, +-1, 0, negation, swaps, flag, key permutations/substitutions/drops) and every list transformation (permutation, sub-list, duplication, splice with another session's proofs, empty list); single proofs also through ProofD.Verify/ProofU.Verify. Every neighbour is also verified on decoded objects that have been verified before (object reuse, caches filled), under substituted keys as well.",
         "note": "Trusted: SHA-256 collision resistance. Quick uses a bit stride of 4 (toy) / 32 (1024-bit); thorough flips every bit on toy keys.",
     },
     "C03": {
         "engine": "vkit (E2)",
         "technique": "exhaustive enumeration of builder lists x secret assignments x label partitions x adversarial equalisers against a one-secret-per-label reference model",
-        "text": "All lists of 2..4 builders, all assignments of three secrets (two of them differing by 1), all labellings (nil and every set partition) are built honestly with the shared randomiser and verified; every equaliser of the menu (overwritten response, difference carried in m_user_responses[0], attribute 0 disclosed or split) is applied to every non-first member. Acceptance with two secrets in one label class is a violation.",
+        "text": "All lists of 2..4 builders, all assignments of three secrets (two of them differing by 1), all labellings (nil and every set partition) are built honestly with the shared randomiser and verified; every equaliser of the menu (overwritten response, difference carried in m_user_responses[0], attribute 0 disclosed or split) is applied to every non-first member. Acceptance with two secrets in one label class is a violation. Non-initial states: verify, overwrite a response in place, verify again on the same objects.",
         "note": "Adversary class: holders pooling all secrets but not knowing ord(QR_n). Soundness only; honest completeness is reported as vacuity here and owned by C02/C04/C14.",
     },
     "C19": {
         "engine": "vkit (E2)",
         "technique": "exhaustive enumeration of small operand domains against brute-force references; scripted-reader enumeration of every candidate byte string for the prime generators",
-        "text": "ModInverse (n<2^9), ModPow (x,m<64,|y|<=8), Legendre vs Jacobi (odd p<2^11/2^12, a in [-p,2p]), Crt (coprime pa,pb<64), PrimeSqrt (primes<2^11/2^12), ModSqrt (<=3 factors from {4, small primes}), SumFourSquares (all n<2^16/2^20 + 2^k families), FastMod (all p<2^8/2^9 with x in [-4p^2,4p^2], aliased and not; all p<2^12 near the boundaries; convenient-prime moduli), RandomPrimeInRange and safeprime.Generate (every candidate byte string), ProbablySafePrime (x<2^16/2^18), Group.Exp (all exponents of all toy safe-prime groups) are enumerated completely.",
+        "text": "ModInverse (n<2^9), ModPow (x,m<64,|y|<=8), Legendre vs Jacobi (odd p<2^11/2^12, a in [-p,2p]), Crt (coprime pa,pb<64), PrimeSqrt (primes<2^11/2^12), ModSqrt (<=3 factors from {4, small primes}), SumFourSquares (all n<2^16/2^20 + 2^k families), FastMod (all p<2^8/2^9 with x in [-4p^2,4p^2], aliased and not; all p<2^12 near the boundaries; convenient-prime moduli), RandomPrimeInRange and safeprime.Generate (every candidate byte string), ProbablySafePrime (x<2^16/2^18), Group.Exp (all exponents of all toy safe-prime groups) are enumerated completely. FastMod: one object re-Set along every sequence of 2 moduli below 2^6 and 3 moduli below 2^4 and along sequences mixing production-sized 2^b-c with general moduli, checked after every Set. A liveness horizon (no evaluation completed for 300 s) reports non-termination of the code under test as a violation.",
         "note": "Trusted: math/big, int64 brute force. Large random operands and the Python cross-reference named in the quantifier are replaced by structured families; 4096-bit operands appear only in those families.",
     },
     "C01": {
         "engine": "vkit (E2) + venv (E3)",
         "technique": "exhaustive alteration enumeration of honest proofs (fault enumeration) + environment-answer deviations, judged by a semantic oracle and an independent reference verifier",
-        "text": "For every credential shape (1..4/6 attributes, boundary-sized and hashed values) and every disclosure subset the honest proof is built by the real builder (also with each random draw forced to 0 / max / short), then every alteration of a fixed menu (leaf arithmetic, sibling swaps, key move/copy/delete/re-key, split of each hidden attribute into disclosed x + remainder, compensated pairs, k*ord shifts of each response across both range ends) is verified through ProofD.Verify and ProofList.Verify on toy, 1024- and 2048-bit keys.",
+        "text": "For every credential shape (1..4/6 attributes, boundary-sized and hashed values) and every disclosure subset the honest proof is built by the real builder (also with each random draw forced to 0 / max / short), then every alteration of a fixed menu (leaf arithmetic, sibling swaps, key move/copy/delete/re-key, split of each hidden attribute into disclosed x + remainder, compensated pairs, k*ord shifts of each response across both range ends) is verified through ProofD.Verify and ProofList.Verify on toy, 1024- and 2048-bit keys. Credentials with a non-revocation witness are included in every shape (the non-revocation branch of the verifier has its own checks).",
         "note": "Trusted: harness trapdoor signer, reference verifier (written from the protocol description), math/big. Not reached: adversaries breaking strong RSA, three-field alterations, values outside the alphabet.",
     },
     "C15": {
         "engine": "vkit (E2)",
         "technique": "bounded exhaustive input enumeration vs. independent reference model (hand-written DER + SHA-256)",
-        "text": "Every list over a DER-boundary integer alphabet (length<=3), every list length 0..300, every content size 0..700 and 65530..65540 bytes, both markers, and the whole (a,b,index,bitlen) box of the expansion are enumerated and compared with an independent reference; perturbation enumeration shows marker/count/order/integer changes always change the digest.",
+        "text": "Every list over a DER-boundary integer alphabet (length<=3), every list length 0..300, every content size 0..700 and 65530..65540 bytes, both markers, and the whole (a,b,index,bitlen) box of the expansion are enumerated and compared with an independent reference; perturbation enumeration shows marker/count/order/integer changes always change the digest. Attribute-hash rule at its four use sites (signer RepresentToBases, CLSignature.Verify, prover for hidden and verifier for disclosed attributes) against one reference on credentials minted with the reference representation, at every boundary size around l_m and every position.",
         "note": "Trusted: Go's crypto/sha256, the harness' own DER encoder (the specification), math/big. Integers outside the alphabet (beyond 65540 content bytes) are not explored.",
     },
 }
